@@ -48,6 +48,13 @@ def main(argv=None) -> int:
     if prop in NEEDS_TTY and not os.environ.get("VERIF_IN_PTY"):
         return run_under_pty([sys.executable, "-m", "harness.main"] + (argv if argv is not None else sys.argv[1:]))
     sys.path.insert(0, str(common.REPO))
+    # one scratch directory per run for everything the harness AND the library under test put into "the temp directory"
+    # (the library leaves announced temporary files behind when no terminal consumes them); removed when the run ends
+    import shutil
+    import tempfile
+    scratch = tempfile.mkdtemp(prefix=f"verif-{prop}-")
+    os.environ["TMPDIR"] = scratch
+    tempfile.tempdir = scratch
     from . import cov
     if cov.enabled():
         cov.start(prop, common.REPO, common.VERIF / "coverage")      # measurement only (see harness/cov.py)
@@ -85,6 +92,8 @@ def main(argv=None) -> int:
         ctx.close()
         if cov.enabled():
             cov.finish()
+        tempfile.tempdir = None
+        shutil.rmtree(scratch, ignore_errors=True)
 
 
 # Properties whose harness constructs TupimageTerminal in-process: it always opens /dev/tty, so the
